@@ -408,6 +408,13 @@ func runC07(c *core.Ctx) {
 			bad := false
 			fb := tw.Final[t.ID]
 			for od, vs := range fb.Opts {
+				if od.Flag { // built-in Bool in typed mode
+					for _, v := range vs {
+						if _, err := strconv.ParseBool(v); err != nil {
+							bad = true
+						}
+					}
+				}
 				if od.Int {
 					for _, v := range vs {
 						if _, err := strconv.ParseInt(v, 10, 64); err != nil {
